@@ -27,6 +27,7 @@ RULE = ("One evaluation = one seeded execution of 2-3 real clients driven by "
 RULE += (' The words of an interactive code entry may be entered after the wormhole closed or failed under the prompt.')
 RULE += (" A when_wordlist_is_available() Deferred's callback calls back into the library (completions, choose_words or close).")
 RULE += (' A ninth configuration makes both sides dilate the moment the verifier is known, on a reordering server.')
+RULE += (" In a third of the runs the server may be restarted with a welcome error while sessions are under way (the welcome of every later connection carries an error).")
 LEVEL_TEXT = ("Seeded exploration of the composed client (13 mailbox machines "
               "+ Dilator) for reachable-but-undeclared (state, input) pairs. "
               "Gating configuration generates only calls whose legality the "
@@ -201,6 +202,10 @@ def run_one(seed, tape, opts):
     a.script = grammar(tape, a, code_a, "B", dil, pairable)
     b.script = grammar(tape, b, code_b, "A", dil, pairable)
     kinds = ALL_FAULTS
+    if tape.choose(3, "unw") == 0:
+        # the operator restarts the server with a welcome error: sessions
+        # that were established meet it on their next connection
+        kinds = kinds + ("restart_unwelcome",)
     ca.pick_faults(tape, w, kinds, 5)
     planned = None
     if variant == "crowded" and tape.choose(2, "slowA") == 0:
